@@ -112,6 +112,7 @@ class Registry:
         self.opaque = {}          # dotted name -> description (trusted external functions)
         self.effects = {}         # dotted external name -> effect tag (dangerous operations)
         self.lemmas = []
+        self.constants = {}       # dotted external name -> python constant
         self.structural = []
 
     def add(self, c):
